@@ -32,6 +32,11 @@ func runC01(c *an.Ctx) {
 	// shared with C08: "at most one transition or teardown at any time" includes the hooks a transition started: the
 	// transition is answered (and its lock released) only after every awaited hook call has returned
 	c.As(map[string]string{"R08f": "R01g"}, func() { r08f(c) })
+	// round 7: shared rules (Await answers only what it received; who may cancel; task errors fail the transition; hooks awaited at a reachable moment)
+	c.As(map[string]string{"R08j": "R01h"}, func() { r08j(c) })
+	whoMayCancel(c, "R01i")
+	c.As(map[string]string{"R02a": "R01j", "R02b": "R01k", "R02c": "R01l", "R02g": "R01m"}, func() { r02abcg(c) })
+	c.As(map[string]string{"R09j": "R01n"}, func() { r09j(c) })
 }
 
 type fsmEvent struct {
